@@ -547,6 +547,18 @@ def relax(spec, rng, intensity=None):
             if not any(x['name'] == d['name'] for x in spec['classes']):
                 spec['classes'].append(d)
                 plains.append(d)
+    if rng.random() < 0.08 and plains:
+        # Any inside a Union / Optional: pointless but legal annotations
+        c = rng.choice(plains)
+        if c.get('params') and c.get('kind') == 'plain':
+            q = rng.choice(c['params'])
+            if q['type'] != 'untyped' and 'default' not in q:
+                if isinstance(q['type'], list) and q['type'][0] in (
+                        'union', 'opt'):
+                    q['type'] = ['opt', 'any']
+                else:
+                    q['type'] = rng.choice([['opt', 'any'],
+                                            ['union', q['type'], 'any']])
     if rng.random() < 0.3:
         # widen the document type
         names = [c['name'] for c in plains if c.get('registered', True)]
